@@ -41,7 +41,7 @@ structure Inv (s : GState R O) : Prop where
   c4' : ∀ r, r ∈ s.detached → aget r s.spawned = some true → r ∈ s.listed
   c5 : ∀ ro w, s.workers ro = some w → w.pc ≠ .queued → w.pc ≠ .idle → ro ∈ s.indexedOnce
   c6 : ∀ r, r ∈ s.detached → (aget r s.spawned).isSome = true
-  c8 : ∀ r, r ∈ s.first → r ∈ s.listed ∨ aget r s.spawned = some true ∨ r ∈ s.leakedK
+  c8 : ∀ r, r ∈ s.first → r ∈ s.listed ∨ aget r s.spawned = some true ∨ r ∈ s.leakedK ∨ (r, true) ∈ s.pending
   a : s.everOn = false → s.handled = false ∧
         ∀ ro w, s.workers ro = some w → w.gated = true ∧
           (w.pc = .queued ∨ w.pc = .indexed ∨ w.pc = .waiting ∨ w.pc = .idle)
@@ -101,13 +101,14 @@ theorem started_of_spawning {s : GState R O} (hi : Inv s) (h : s.spawning = true
 /-- the momentary readiness of everything spawned so far (seen with the set on, hence with nothing
     leaked) implies the readiness of the start-up kinds -/
 theorem ready1_of_ready {s : GState R O} (hi : Inv s) (hlk : s.leakedK = []) (h : Ready s) : Ready1 s := by
-  obtain ⟨_, _, _, hl, hx⟩ := h
+  obtain ⟨_, _, hpd, hl, hx⟩ := h
   refine ⟨?_, fun ro hro _ => hx ro hro⟩
   intro r hr
-  rcases hi.c8 r hr with h1 | h1 | h1
+  rcases hi.c8 r hr with h1 | h1 | h1 | h1
   · exact h1
   · exact hl r h1
   · simp [hlk] at h1
+  · simp [hpd] at h1
 
 theorem ready1_of_isOn {s : GState R O} (hi : Inv s) (hon : s.isOn = true) : Ready1 s :=
   ready1_of_ready hi ((isOn_iff s).1 hon).2.2.2.2 (ready_of_isOn hi hon)
@@ -175,9 +176,40 @@ theorem step_inv {s s' : GState R O} (l : Label R O) (hi : Inv s) (h : step .non
   | spawnBegin kinds =>
     simp only [step] at h
     split at h
-    · simp only [Option.some.injEq] at h
+    · rename_i hg
+      simp only [Option.some.injEq] at h
+      have hsp0 : s.spawning = false := by
+        simp only [Bool.and_eq_true, Bool.not_eq_true'] at hg; exact hg.1.1
+      have hpd0 : s.pending = [] := hi.c1' hsp0
       subst h
-      exact ⟨by simp, by simp, by simp, hi.c2, hi.c3, hi.c4, hi.c4', hi.c5, hi.c6, hi.c8, hi.a, hi.b⟩
+      refine ⟨by simp, by simp, by simp, hi.c2, hi.c3, hi.c4, hi.c4', hi.c5, hi.c6, ?_, hi.a, ?_⟩
+      · intro r0 hr0
+        have hr0' : r0 ∈ (if s.everOn = true then s.first
+                          else s.first ++ (kinds.filter (·.2)).map Prod.fst) := hr0
+        show r0 ∈ s.listed ∨ aget r0 s.spawned = some true ∨ r0 ∈ s.leakedK ∨ (r0, true) ∈ kinds
+        have hold : r0 ∈ s.first → r0 ∈ s.listed ∨ aget r0 s.spawned = some true ∨ r0 ∈ s.leakedK ∨ (r0, true) ∈ kinds := by
+          intro h0
+          rcases hi.c8 r0 h0 with h1 | h1 | h1 | h1
+          · exact Or.inl h1
+          · exact Or.inr (Or.inl h1)
+          · exact Or.inr (Or.inr (Or.inl h1))
+          · simp [hpd0] at h1
+        by_cases he : s.everOn = true
+        · rw [if_pos he] at hr0'; exact hold hr0'
+        · rw [if_neg he, List.mem_append] at hr0'
+          rcases hr0' with h0 | h0
+          · exact hold h0
+          · obtain ⟨p, hp, hpe⟩ := List.mem_map.1 h0
+            obtain ⟨hp1, hp2⟩ := List.mem_filter.1 hp
+            obtain ⟨pr, pi⟩ := p
+            simp only at hp2 hpe
+            subst hpe; subst hp2
+            exact Or.inr (Or.inr (Or.inr hp1))
+      · intro he
+        have he' : s.everOn = true := he
+        refine ready1_mono (hi.b he') ?_ (fun _ h => h) (fun _ h _ => h) (fun _ h => h)
+        show (if s.everOn = true then s.first else s.first ++ (kinds.filter (·.2)).map Prod.fst) = s.first
+        simp [he']
     · cases h
   | spawn r =>
     simp only [step] at h
@@ -229,31 +261,20 @@ theorem step_inv {s s' : GState R O} (l : Label R O) (hi : Inv s) (h : step .non
           | some x => simp [hkeep r0 x hg0]
         · -- c8
           intro r0 hr0
-          have hr0' : r0 ∈ (if (ind && !s.everOn) = true then sadd r' s.first else s.first) := hr0
-          show r0 ∈ s.listed ∨ aget r0 (s.spawned ++ [(r', ind)]) = some true ∨ r0 ∈ s.leakedK
-          have hold : r0 ∈ s.first → r0 ∈ s.listed ∨ aget r0 (s.spawned ++ [(r', ind)]) = some true ∨ r0 ∈ s.leakedK := by
-            intro h0
-            rcases hi.c8 r0 h0 with h1 | h1 | h1
-            · exact Or.inl h1
-            · exact Or.inr (Or.inl (hkeep r0 true h1))
-            · exact Or.inr (Or.inr h1)
-          by_cases hc : (ind && !s.everOn) = true
-          · rw [if_pos hc, mem_sadd] at hr0'
-            rcases hr0' with h0 | h0
-            · subst h0
-              have hind : ind = true := by
-                simp only [Bool.and_eq_true] at hc; exact hc.1
-              exact Or.inr (Or.inl (by simp [aget_append_single, hnone, hind]))
-            · exact hold h0
-          · rw [if_neg hc] at hr0'
-            exact hold hr0'
+          have hr0' : r0 ∈ s.first := hr0
+          show r0 ∈ s.listed ∨ aget r0 (s.spawned ++ [(r', ind)]) = some true ∨ r0 ∈ s.leakedK ∨ (r0, true) ∈ rest
+          rcases hi.c8 r0 hr0' with h1 | h1 | h1 | h1
+          · exact Or.inl h1
+          · exact Or.inr (Or.inl (hkeep r0 true h1))
+          · exact Or.inr (Or.inr (Or.inl h1))
+          · rw [hp] at h1
+            rcases List.mem_cons.1 h1 with h2 | h2
+            · cases h2
+              exact Or.inr (Or.inl (by simp [aget_append_single, hnone]))
+            · exact Or.inr (Or.inr (Or.inr h2))
         · -- b
           intro he
-          have he' : s.everOn = true := he
-          have hb := hi.b he'
-          refine ready1_mono hb ?_ (fun _ h => h) (fun _ h _ => h) (fun _ h => h)
-          show (if (ind && !s.everOn) = true then sadd r' s.first else s.first) = s.first
-          simp [he']
+          exact ready1_mono (hi.b he) rfl (fun _ h => h) (fun _ h _ => h) (fun _ h => h)
       · simp [hg] at h
   | spawnEnd =>
     simp only [step] at h
@@ -264,6 +285,90 @@ theorem step_inv {s s' : GState R O} (l : Label R O) (hi : Inv s) (h : step .non
       have hst := started_of_spawning hi hg.1
       exact ⟨by simp [hst], by simp, by simp [hg.2], hi.c2, hi.c3, hi.c4, hi.c4', hi.c5, hi.c6, hi.c8, hi.a, hi.b⟩
     · simp [hg] at h
+  | die r =>
+    simp only [step] at h
+    cases hsp : aget r s.spawned with
+    | none => simp [hsp] at h
+    | some ind =>
+      simp only [hsp, Option.some.injEq] at h
+      subst h
+      have hst := started_of_spawned hi hsp
+      refine ⟨by simp [hst], hi.c1, hi.c1', ?_, ?_, ?_, ?_, ?_, ?_, ?_, ?_, ?_⟩
+      · -- c2
+        intro r0 hr0 hnl
+        have hr0' : aget r0 (adel r s.spawned) = some true := hr0
+        rw [aget_adel] at hr0'
+        by_cases he : r0 = r
+        · simp [he] at hr0'
+        · simp only [he, if_false] at hr0'
+          show r0 ∈ sdel r s.resTog
+          rw [mem_sdel]
+          exact ⟨hi.c2 r0 hr0' hnl, he⟩
+      · -- c3
+        intro ro hro hni
+        show ro ∈ s.objTog.filter (fun ro => !decide (ro.1 = r)) ∨
+             ro ∈ s.objTog.filter (fun ro => decide (ro.1 = r)) ++ s.leaked
+        rcases hi.c3 ro hro hni with h1 | h1
+        · by_cases he : ro.1 = r
+          · exact Or.inr (by simp [List.mem_filter, h1, he])
+          · exact Or.inl (by simp [List.mem_filter, h1, he])
+        · exact Or.inr (by simp [h1])
+      · -- c4
+        intro r0 hd
+        have hd' : r0 ∈ sdel r s.detached := hd
+        rw [mem_sdel] at hd'
+        exact hi.c4 r0 hd'.1
+      · -- c4'
+        intro r0 hd hr0
+        have hd' : r0 ∈ sdel r s.detached := hd
+        rw [mem_sdel] at hd'
+        have hr0' : aget r0 (adel r s.spawned) = some true := hr0
+        rw [aget_adel_other _ hd'.2] at hr0'
+        exact hi.c4' r0 hd'.1 hr0'
+      · -- c5
+        intro ro w hw hpc hpc2
+        have hw' : (if ro.1 = r then none else s.workers ro) = some w := hw
+        by_cases he : ro.1 = r
+        · simp [he] at hw'
+        · simp only [he, if_false] at hw'
+          exact hi.c5 ro w hw' hpc hpc2
+      · -- c6
+        intro r0 hd
+        have hd' : r0 ∈ sdel r s.detached := hd
+        rw [mem_sdel] at hd'
+        show (aget r0 (adel r s.spawned)).isSome = true
+        rw [aget_adel_other _ hd'.2]
+        exact hi.c6 r0 hd'.1
+      · -- c8
+        intro r0 hr0
+        show r0 ∈ s.listed ∨ aget r0 (adel r s.spawned) = some true ∨
+             r0 ∈ (if (ind && decide (r ∈ s.resTog)) = true then r :: s.leakedK else s.leakedK) ∨
+             (r0, true) ∈ s.pending
+        rcases hi.c8 r0 hr0 with h1 | h1 | h1 | h1
+        · exact Or.inl h1
+        · by_cases he : r0 = r
+          · subst he
+            rw [hsp] at h1
+            cases h1
+            by_cases hl : r0 ∈ s.listed
+            · exact Or.inl hl
+            · have := hi.c2 r0 hsp hl
+              exact Or.inr (Or.inr (Or.inl (by simp [this])))
+          · exact Or.inr (Or.inl (by rw [aget_adel_other _ he]; exact h1))
+        · exact Or.inr (Or.inr (Or.inl (by split <;> simp [h1])))
+        · exact Or.inr (Or.inr (Or.inr h1))
+      · -- a
+        intro he
+        refine ⟨(hi.a he).1, ?_⟩
+        intro ro w hw
+        have hw' : (if ro.1 = r then none else s.workers ro) = some w := hw
+        by_cases hx : ro.1 = r
+        · simp [hx] at hw'
+        · simp only [hx, if_false] at hw'
+          exact (hi.a he).2 ro w hw'
+      · -- b
+        intro he
+        exact ready1_mono (hi.b he) rfl (fun _ h => h) (fun _ h _ => h) (fun _ h => h)
   | check r o on =>
     simp only [step] at h
     cases hsp : aget r s.spawned with
@@ -398,6 +503,13 @@ theorem step_inv {s s' : GState R O} (l : Label R O) (hi : Inv s) (h : step .non
           show r0 ∈ sadd r s.listed
           rw [mem_sadd]
           exact Or.inr (hi.c4' r0 hd hr0)
+        · intro r0 hr0
+          show r0 ∈ sadd r s.listed ∨ aget r0 s.spawned = some true ∨ r0 ∈ s.leakedK ∨ (r0, true) ∈ s.pending
+          rcases hi.c8 r0 hr0 with h1 | h1 | h1 | h1
+          · exact Or.inl (by simp [mem_sadd, h1])
+          · exact Or.inr (Or.inl h1)
+          · exact Or.inr (Or.inr (Or.inl h1))
+          · exact Or.inr (Or.inr (Or.inr h1))
         · intro he
           exact ready1_mono (hi.b he) rfl (fun r0 h => by simp [mem_sadd, h]) (fun _ h _ => h) (fun _ h => h)
   | index r o =>
@@ -429,9 +541,7 @@ theorem step_inv {s s' : GState R O} (l : Label R O) (hi : Inv s) (h : step .non
       simp only [hw] at h
       by_cases hpc : w.pc = .queued
       · simp only [hpc, if_true, Option.some.injEq] at h
-        have hi' := inv_setPc (s := { s with failed := true }) (ro := (r, o)) (w := w) (pc := .idle)
-          ⟨hi.c0, hi.c1, hi.c1', hi.c2, hi.c3, hi.c4, hi.c4', hi.c5, hi.c6, hi.c8, hi.a, hi.b⟩
-          hw (fun _ h2 => absurd rfl h2) (fun _ => Or.inr (Or.inr (Or.inr rfl)))
+        have hi' := inv_setPc (ro := (r, o)) (w := w) (pc := .idle) hi hw (fun _ h2 => absurd rfl h2) (fun _ => Or.inr (Or.inr (Or.inr rfl)))
         subst h
         exact hi'
       · simp [hpc] at h
@@ -475,7 +585,7 @@ theorem step_inv {s s' : GState R O} (l : Label R O) (hi : Inv s) (h : step .non
       by_cases hg : w.pc = .waiting ∧ s.isOn = true
       · simp only [hg, and_self, if_true, Option.some.injEq] at h
         have hst := started_of_worker hi hw
-        have hready1 := ready1_of_ready hi hst (ready_of_isOn hi hg.2)
+        have hready1 := ready1_of_isOn hi hg.2
         have hio : (r, o) ∈ s.indexedOnce := hi.c5 (r, o) w hw (by simp [hg.1]) (by simp [hg.1])
         have hi' := inv_setPc (s := { s with everOn := true }) (ro := (r, o)) (w := w) (pc := .passed)
           ⟨(fun hs => by simp [hst] at hs),
